@@ -455,7 +455,8 @@ func compileBatch(cases []ConfCase) (int, []Violation, error) {
 	sum, _ := os.ReadFile("/repo/go.sum")
 	os.WriteFile(filepath.Join(dir, "go.sum"), sum, 0o644)
 	var viols []Violation
-	var imports, calls []string
+	imports, calls := map[string]string{}, map[string]string{}
+	var order []string
 	texts := map[string]ConfCase{}
 	for i, cs := range cases {
 		pkg := fmt.Sprintf("g%d", i)
@@ -490,12 +491,26 @@ func compileBatch(cases []ConfCase) (int, []Violation, error) {
 		helper += "\n// Try parses one input (package initialisation has run by then).\nfunc Try() (err error) {\n\tdefer func() {\n\t\tif e := recover(); e != nil {\n\t\t\terr = fmt.Errorf(\"panic: %v\", e)\n\t\t}\n\t}()\n\t_, _ = Parse(\"\", []byte(\"aé1b\"), MaxExpressions(5000))\n\treturn nil\n}\n"
 		helper = strings.Replace(helper, "package "+pkg+"\n", "package "+pkg+"\n\nimport \"fmt\"\n", 1)
 		os.WriteFile(filepath.Join(pd, "helper.go"), []byte(helper), 0o644)
-		imports = append(imports, fmt.Sprintf("\t%q", "c04/"+pkg))
-		calls = append(calls, fmt.Sprintf("\tif err := %s.Try(); err != nil {\n\t\tfmt.Println(%q, err)\n\t\tbad = true\n\t}", pkg, pkg))
+		imports[pkg] = fmt.Sprintf("\t%q", "c04/"+pkg)
+		calls[pkg] = fmt.Sprintf("\tif err := %s.Try(); err != nil {\n\t\tfmt.Println(%q, err)\n\t\tbad = true\n\t}", pkg, pkg)
+		order = append(order, pkg)
 		texts[pkg] = cs
 	}
-	mainSrc := "package main\n\nimport (\n\t\"fmt\"\n\t\"os\"\n" + strings.Join(imports, "\n") + "\n)\n\nfunc main() {\n\tbad := false\n" + strings.Join(calls, "\n") + "\n\tif bad {\n\t\tos.Exit(1)\n\t}\n\tfmt.Println(\"all packages initialised\")\n}\n"
-	os.WriteFile(filepath.Join(dir, "main.go"), []byte(mainSrc), 0o644)
+	// dropped: packages that the compiler refused (each is a violation or a known finding already);
+	// they are taken out of the module so that every OTHER package is still vetted and initialised
+	dropped := map[string]bool{}
+	writeMain := func() {
+		var im, ca []string
+		for _, pkg := range order {
+			if !dropped[pkg] {
+				im = append(im, imports[pkg])
+				ca = append(ca, calls[pkg])
+			}
+		}
+		mainSrc := "package main\n\nimport (\n\t\"fmt\"\n\t\"os\"\n" + strings.Join(im, "\n") + "\n)\n\nfunc main() {\n\tbad := false\n" + strings.Join(ca, "\n") + "\n\tif bad {\n\t\tos.Exit(1)\n\t}\n\tfmt.Println(\"all packages initialised\")\n}\n"
+		os.WriteFile(filepath.Join(dir, "main.go"), []byte(mainSrc), 0o644)
+	}
+	writeMain()
 	env := append(os.Environ(), "GOFLAGS=-mod=mod", "GOPROXY=off")
 	run := func(name string, args ...string) (string, error) {
 		cmd := exec.Command(name, args...)
@@ -504,11 +519,17 @@ func compileBatch(cases []ConfCase) (int, []Violation, error) {
 		out, err := cmd.CombinedOutput()
 		return string(out), err
 	}
+	var blamedNow []string
 	blame := func(out string, what string) {
 		hit := false
+		blamedNow = nil
 		for pkg, cs := range texts {
+			if dropped[pkg] {
+				continue
+			}
 			if strings.Contains(out, pkg+"/parser.go") || strings.Contains(out, "c04/"+pkg+"\n") || strings.Contains(out, "c04/"+pkg+" ") || strings.Contains(out, "\""+pkg+"\"") || strings.Contains(out, pkg+" panic") {
 				hit = true
+				blamedNow = append(blamedNow, pkg)
 				var lines []string
 				for _, l := range strings.Split(out, "\n") {
 					if strings.Contains(l, pkg+"/") || strings.Contains(l, pkg+" ") {
@@ -538,9 +559,20 @@ func compileBatch(cases []ConfCase) (int, []Violation, error) {
 			blame(strings.Join(ps, "\n"), "emitted file is not gofmt-formatted")
 		}
 	}
-	if out, err := run("go", "build", "./..."); err != nil {
+	for round := 0; ; round++ {
+		out, err := run("go", "build", "./...")
+		if err == nil {
+			break
+		}
 		blame(out, "go build fails")
-		return len(texts), viols, nil
+		if len(blamedNow) == 0 || round > 20 {
+			return len(texts), viols, nil
+		}
+		for _, pkg := range blamedNow {
+			dropped[pkg] = true
+			os.RemoveAll(filepath.Join(dir, pkg))
+		}
+		writeMain()
 	}
 	if out, err := run("go", "vet", "./..."); err != nil {
 		blame(out, "go vet reports")
@@ -562,7 +594,7 @@ func compileBatch(cases []ConfCase) (int, []Violation, error) {
 			loaderAtFault = append(loaderAtFault, cs.Why+" :: "+oneLine(cs.Text)+" "+strings.Join(cs.Gen.AltEntry, " "))
 		}
 	}
-	return len(texts), viols, nil
+	return len(texts) - len(dropped), viols, nil
 }
 
 func firstN(s []string, n int) []string {
